@@ -204,6 +204,31 @@ def check_cds_view(ctx, A, B, spec, cs, ce, g, what="cds", cst="+"):
                 ctx.eq(what + ":windowed_chunk_relative_codons[expand=%d]" % expand, got_w, exp_w, extra={"chunk": [cs, ce], "window": [ws, we]})
                 if exp_w and len(exp_w) < len(inside_codons):
                     ctx.label("window_inside_chunk_view")
+    # merging the blocks of a CDS is a chromosome-level operation: asked of the object on the chunk it gives the CDS the
+    # whole-chromosome twin gives, seen through the same chunk
+    for name in ("optimize_blocks", "optimize_and_combine_blocks"):
+        try:
+            mA = getattr(A, name)()
+        except (BioCantorException, ValueError):
+            continue
+        try:
+            mB = getattr(mkcds(spec, chunk_parent(g, cs, ce, strand=cst)), name)()
+        except (BioCantorException, ValueError) as e:
+            ctx.fail(what + ":" + name + "_on_chunk_raises", repr(e)[:120])
+            continue
+        ctx.eq(what + ":" + name + ":chromosome_blocks", rm.loc_blocks(mB.chromosome_location), rm.loc_blocks(mA.chromosome_location))
+        ctx.eq(what + ":" + name + ":frames", [f.value for f in mB.frames], [f.value for f in mA.frames])
+        if any_inside:
+            ctx.true(what + ":" + name + ":stays_on_the_chunk", mB.is_chunk_relative, repr(mB)[:80])
+        try:
+            cod_a = codon_triples(mA.chromosome_codon_locations)
+            ctx.eq(what + ":" + name + ":chromosome_codons", codon_triples(mB.chromosome_codon_locations), cod_a)
+            if nonov_ := all(bl[i][1] <= bl[i + 1][0] for i in range(len(bl) - 1)):
+                ctx.eq(what + ":" + name + ":chunk_relative_codons", [tuple(up(p) for p in t) for t in codon_triples(mB.chunk_relative_codon_locations)],
+                       [c for c in cod_a if all(cs <= p < ce for p in c)])
+        except (BioCantorException, ValueError) as e:
+            ctx.fail(what + ":" + name + ":codons_raise", repr(e)[:120])
+        ctx.label("cds_merged_on_chunk")
     seqs = [rm.seq_image(g, c, strand).upper() for c in inside_codons]
     B2 = mkcds(spec, chunk_parent(g, cs, ce, strand=cst))
     if any_inside:
@@ -574,6 +599,17 @@ def pred_f6(spec, clause, detail):
         bl, fr = o["cds"], o["frames"]
     else:
         return False
+    if "optimize_" in clause:
+        # the CDS in question is the MERGED one: abutting (and, for optimize_and_combine_blocks, overlapping) blocks are one block,
+        # its frame is the 5' frame of the source
+        mg = []
+        for b_ in sorted(map(tuple, bl)):
+            if mg and (b_[0] == mg[-1][1] or ("and_combine" in clause and b_[0] < mg[-1][1])):
+                mg[-1] = (mg[-1][0], max(mg[-1][1], b_[1]))
+            else:
+                mg.append(b_)
+        strand_ = o["strand"]
+        bl, fr = mg, [fr[0] if strand_ == "+" else fr[-1]]
     if len(bl) != 1 or fr[0] == 0:
         return False
     try:
